@@ -1,0 +1,29 @@
+//go:build verif
+
+package consensus
+
+import (
+	"github.com/nspcc-dev/dbft"
+	"github.com/nspcc-dev/neo-go/pkg/util"
+)
+
+// VerifNewTimer, when set, supplies the dBFT timer of every service created
+// afterwards (virtual time for verification harnesses).
+var VerifNewTimer func() dbft.Timer
+
+// VerifLoopIdle, when set, is called at the end of every iteration of a
+// service's event loop, i.e. after one event has been fully processed.
+var VerifLoopIdle func(s Service)
+
+func verifOpts(opts []func(*dbft.Config[util.Uint256])) []func(*dbft.Config[util.Uint256]) {
+	if VerifNewTimer != nil {
+		opts = append(opts, dbft.WithTimer[util.Uint256](VerifNewTimer()))
+	}
+	return opts
+}
+
+func verifLoopIdle(s *service) {
+	if f := VerifLoopIdle; f != nil {
+		f(s)
+	}
+}
